@@ -1186,7 +1186,8 @@ class ConnectionBase(object):
                 # calculate the size of the packet so far + this message
                 size = len(msg.payload) + Packet.overhead(1+len(msgs)) + current_msg_length
                 # if the message fits add it to the packet
-                if size <= max_size:
+                # the header count field is one byte
+                if size <= max_size and len(msgs) < 255:
                     del self.pending_retry_msg[msgseq]
                     msgs.append(msg)
                     current_msg_length += len(msg.payload)
@@ -1203,7 +1204,7 @@ class ConnectionBase(object):
             # calculate the size of the packet so far + this message
             size = len(pending.payload) + Packet.overhead(1+len(msgs)) + current_msg_length
             # if the message fits add it to the packet
-            if size <= max_size:
+            if size <= max_size and len(msgs) < 255:
                 self.outgoing_messages.pop(idx)
                 msgs.append(pending)
                 current_msg_length += len(pending.payload)
